@@ -1045,6 +1045,23 @@ fn edge_set_generic<S: Shape, const N: usize>(
             None => json!(["panic"]),
             Some(()) => json!(["unit"]),
         },
+        "clone" => {
+            match measured(&mut allocs, || m.clone()) {
+                None => {
+                    fails.push(Fail { props: "C15".into(), msg: format!("[{}] clone() of a set panicked", S::NAME) });
+                }
+                Some(cp) => {
+                    let mut a: Vec<u8> = cp.iter().map(|k| S::kc(k)).collect();
+                    let mut b: Vec<u8> = m.iter().map(|k| S::kc(k)).collect();
+                    a.sort();
+                    b.sort();
+                    if a != b || !(cp == *m) {
+                        fails.push(Fail { props: "C15".into(), msg: format!("[{}] the clone holds {a:?}, the original {b:?}", S::NAME) });
+                    }
+                }
+            }
+            Value::Null
+        }
         "s_extend" | "s_from_iter" => {
             let items: Vec<S::K> = op["items"].as_array().unwrap().iter().map(|it| S::k(it["k"]["c"].as_u64().unwrap() as u8)).collect();
             let n = items.len();
@@ -1157,7 +1174,7 @@ pub fn run_shapes(table: &Table, set_mode: bool, rep: &mut Report) -> std::colle
             crate::replay::with_n!(n, edge_tagged, t, idx, rep);
             crate::replay::with_n!(n, edge_dst, t, idx, rep);
         }
-        if idx % 4 == 0 && roomy_ok(t, n) && max_class(t) <= Large::MAX_CLASS {
+        if (idx % 4 == 0 || name == "clone") && roomy_ok(t, n) && max_class(t) <= Large::MAX_CLASS {
             if set_mode {
                 edge_set::<WideKey, ROOMY_SET>(t, idx, rep);
             } else {
